@@ -22,6 +22,7 @@ func init() {
 		StackBound(c, "R-STACKBOUND", c.Pkg("immutable"))
 		TrieFrag(c, "R-FRAG", c.Pkg("immutable"))
 		TrieLevel(c, "R-LEVEL", c.Pkg("immutable"))
+		TrieResized(c, "R-RESIZED", c.Pkg("immutable"))
 	})
 }
 
